@@ -539,3 +539,298 @@ Proof.
 Qed.
 
 End P3.
+
+(** ---- the build step establishes [arg_ok] ---- *)
+Definition spec_arg_ok (a : harg) : bool := implb (ha_is_positional a) (ha_takes_value (harg_build a)).
+
+Lemma harg_build_pos a : ha_is_positional (harg_build a) = ha_is_positional a.
+Proof. unfold harg_build. destruct (ha_num a); [|destruct (1 <? _)]; reflexivity. Qed.
+Lemma harg_build_num a : is_some (ha_num (harg_build a)) = true.
+Proof. unfold harg_build. destruct (ha_num a) eqn:E; [rewrite E; reflexivity|destruct (1 <? _); reflexivity]. Qed.
+
+Lemma build_hargs_ok args : forall n b,
+  (forall a, In a args -> spec_arg_ok a = true) -> In b (build_hargs args n) -> arg_ok b = true.
+Proof.
+  induction args as [|x t IH]; intros n b Hs Hb; cbn [build_hargs] in Hb; [destruct Hb|].
+  pose proof (Hs x (or_introl eq_refl)) as Hx. unfold spec_arg_ok in Hx.
+  pose proof (harg_build_num x) as Hn. pose proof (harg_build_pos x) as Hp.
+  assert (Ht : forall a, In a t -> spec_arg_ok a = true) by (intros a Ha; apply Hs; right; exact Ha).
+  destruct (ha_is_positional (harg_build x) && negb (is_some (ha_index (harg_build x)))) eqn:E.
+  - destruct Hb as [Hb|Hb]; [|apply (IH _ _ Ht Hb)]. subst b.
+    apply andb_true_iff in E. destruct E as [E1 _].
+    unfold arg_ok. cbn. cbn in Hn. rewrite Hn. unfold ha_is_positional in E1 |- *. cbn. rewrite E1. cbn.
+    rewrite <- Hp in Hx. unfold ha_is_positional in Hx. rewrite E1 in Hx. cbn in Hx.
+    unfold ha_takes_value in Hx |- *. cbn. rewrite Hx. reflexivity.
+  - destruct Hb as [Hb|Hb]; [|apply (IH _ _ Ht Hb)]. subst b.
+    unfold arg_ok. rewrite Hn. cbn [andb].
+    destruct (ha_is_positional (harg_build x)) eqn:P; [|reflexivity].
+    cbn [andb] in E. cbn [implb]. rewrite <- Hp in Hx. cbn [implb] in Hx. rewrite Hx.
+    destruct (is_some (ha_index (harg_build x))); [reflexivity|discriminate].
+Qed.
+
+Lemma help_arg_spec_ok b : spec_arg_ok (h_help_arg b) = true.
+Proof. destruct b; reflexivity. Qed.
+Lemma version_arg_spec_ok : spec_arg_ok h_version_arg = true.
+Proof. reflexivity. Qed.
+
+Definition spec_ok (c : hcmd) : Prop := forall a, In a (hc_args c) -> spec_arg_ok a = true.
+
+Lemma h_build_self_args_ok c : hc_built c = false -> spec_ok c -> args_ok (h_build_self c).
+Proof.
+  intros Hb Hs. unfold h_build_self. rewrite Hb. unfold args_ok. cbn. intros a Ha.
+  apply (build_hargs_ok _ _ _) in Ha; [exact Ha|]. clear Ha a.
+  intros a Ha. unfold h_check_help_and_version in Ha.
+  repeat match type of Ha with context [if ?x then _ else _] => destruct x end; cbn in Ha;
+    repeat (apply in_app_or in Ha; destruct Ha as [Ha|Ha]);
+    try (destruct Ha as [Ha|[]]; subst a; first [apply help_arg_spec_ok|apply version_arg_spec_ok]);
+    try (apply Hs; exact Ha).
+Qed.
+
+(** ---- every visible item is listed ---- *)
+Lemma bytes_cmp_eq a : forall b, bytes_cmp a b = Eq -> a = b.
+Proof.
+  induction a as [|x a IH]; intros [|y b] H; cbn [bytes_cmp] in H; try discriminate; [reflexivity|].
+  destruct (x ?= y) eqn:E; try discriminate. apply N.compare_eq in E. subst. f_equal. apply IH. exact H.
+Qed.
+Lemma akey_cmp_eq_id a b : akey_cmp a b = Eq -> snd a = snd b.
+Proof.
+  unfold akey_cmp. destruct (key_cmp (fst a) (fst b)); try discriminate. apply bytes_cmp_eq.
+Qed.
+Lemma key_cmp_eq a b : key_cmp a b = Eq -> a = b.
+Proof.
+  unfold key_cmp. destruct a as [n s], b as [m t]. cbn [fst snd].
+  destruct (n ?= m) eqn:E; try discriminate. intros H. apply N.compare_eq in E. apply bytes_cmp_eq in H. subst. reflexivity.
+Qed.
+
+Lemma akey_cmp_eq a b : akey_cmp a b = Eq -> a = b.
+Proof.
+  unfold akey_cmp. destruct a as [k i], b as [k' i']. cbn [fst snd].
+  destruct (key_cmp k k') eqn:E; try discriminate. intros H. apply key_cmp_eq in E. apply bytes_cmp_eq in H. subst. reflexivity.
+Qed.
+
+(** inserting keeps every entry whose key differs from the inserted one, and adds the new one *)
+Lemma bt_insert_keeps {K V} (cmp : K -> K -> comparison) k (v : V) m p :
+  In p m -> cmp k (fst p) <> Eq -> In p (bt_insert cmp k v m).
+Proof.
+  induction m as [|[k' v'] t IH]; intros H Hne; [destruct H|]. cbn [bt_insert].
+  destruct H as [H|H].
+  - subst p. cbn [fst] in Hne. destruct (cmp k k'); [contradiction|right; left; reflexivity|left; reflexivity].
+  - destruct (cmp k k') eqn:E; [right; exact H|right; right; exact H|right; apply IH; assumption].
+Qed.
+Lemma bt_insert_has {K V} (cmp : K -> K -> comparison) k (v : V) m :
+  In v (map snd (bt_insert cmp k v m)).
+Proof.
+  induction m as [|[k' v'] t IH]; cbn [bt_insert].
+  - left. reflexivity.
+  - destruct (cmp k k'); [left; reflexivity|left; reflexivity|right; exact IH].
+Qed.
+Lemma bt_insert_in_key {K V} (cmp : K -> K -> comparison) k (v : V) m p :
+  In p (bt_insert cmp k v m) -> (fst p = k \/ cmp k (fst p) = Eq) \/ In p m.
+Proof.
+  induction m as [|[k' v'] t IH]; cbn [bt_insert]; intros H.
+  - destruct H as [H|[]]. subst. left. left. reflexivity.
+  - destruct (cmp k k') eqn:E.
+    + destruct H as [H|H]; [subst; left; right; exact E|right; right; exact H].
+    + destruct H as [H|H]; [subst; left; left; reflexivity|right; exact H].
+    + destruct H as [H|H]; [right; left; exact H|].
+      destruct (IH H) as [E2|E2]; [left; exact E2|right; right; exact E2].
+Qed.
+
+Lemma fold_insert_lists {K V A} (cmp : K -> K -> comparison) (kf : A -> K) (vf : A -> V)
+  (Hcmp : forall a b, cmp a b = Eq -> a = b) l : forall m,
+  NoDup (map kf l) -> (forall p, In p m -> ~ In (fst p) (map kf l)) ->
+  forall v, ((exists a, In a l /\ vf a = v) \/ In v (map snd m)) ->
+  In v (map snd (fold_left (fun m a => bt_insert cmp (kf a) (vf a) m) l m)).
+Proof.
+  induction l as [|x t IH]; intros m Hnd Hfresh v Hv; cbn [fold_left].
+  - destruct Hv as [[a [[] _]]|Hv]. exact Hv.
+  - cbn [map] in Hnd. inversion Hnd as [|? ? Hx Hnd']; subst.
+    apply IH; [exact Hnd'| |].
+    + intros p Hp Hin. destruct (bt_insert_in_key _ _ _ _ _ Hp) as [[E|E]|Hold].
+      * rewrite E in Hin. contradiction.
+      * apply Hcmp in E. rewrite <- E in Hin. contradiction.
+      * apply (Hfresh p Hold). right. exact Hin.
+    + destruct Hv as [[a [[Ha|Ha] E]]|Hv].
+      * subst a. right. rewrite <- E. apply bt_insert_has.
+      * left. exists a. split; assumption.
+      * right. apply in_map_iff in Hv. destruct Hv as [p [E Hp]]. apply in_map_iff. exists p. split; [exact E|].
+        apply bt_insert_keeps; [exact Hp|]. intros Eq. apply Hcmp in Eq.
+        apply (Hfresh p Hp). left. exact Eq.
+Qed.
+
+Lemma NoDup_map_filter {A B} (f : A -> B) (p : A -> bool) l : NoDup (map f l) -> NoDup (map f (filter p l)).
+Proof.
+  induction l as [|x t IH]; intros H; cbn [filter map] in *; [constructor|].
+  inversion H as [|? ? Hx Ht]; subst. destruct (p x); cbn [map]; [|apply IH; exact Ht].
+  constructor; [|apply IH; exact Ht]. intros Hin. apply Hx. apply in_map_iff in Hin. destruct Hin as [y [E Hy]].
+  apply in_map_iff. exists y. split; [exact E|]. apply filter_In in Hy. apply Hy.
+Qed.
+Lemma NoDup_map_pair {A B C} (f : A -> B) (g : A -> C) l : NoDup (map g l) -> NoDup (map (fun a => (f a, g a)) l).
+Proof.
+  induction l as [|x t IH]; intros H; cbn [map] in *; [constructor|].
+  inversion H as [|? ? Hx Ht]; subst. constructor; [|apply IH; exact Ht].
+  intros Hin. apply Hx. apply in_map_iff in Hin. destruct Hin as [y [E Hy]].
+  apply in_map_iff. exists y. split; [congruence|exact Hy].
+Qed.
+
+Section P4.
+Variable dw : bytes -> N.
+
+Lemma write_arg_id cx a nl L r : write_arg dw cx a nl L = Some r -> r_id r = ha_id a.
+Proof.
+  unfold write_arg. destruct (left_col a); [|discriminate]. destruct (align_to_about dw cx a nl L); [|discriminate].
+  destruct (help_arg dw cx a nl L); [|discriminate]. intros H. inversion H. reflexivity.
+Qed.
+
+(** with distinct ids every shown argument has a row *)
+Lemma write_args_lists cx args key rows a :
+  NoDup (map ha_id args) -> write_args dw cx args key = Some rows ->
+  In a args -> should_show_arg (cx_use_long cx) a = true ->
+  exists r, In r rows /\ r_id r = ha_id a.
+Proof.
+  intros Hnd H Ha Hs. unfold write_args in H.
+  set (shown := filter (should_show_arg (cx_use_long cx)) args) in *.
+  destruct (wa_longest dw shown 2) as [L|]; [|discriminate].
+  assert (Hin : In a (map snd (wa_ord key shown))).
+  { unfold wa_ord. apply (fold_insert_lists akey_cmp (fun a => (key a, ha_id a)) (fun a => a) akey_cmp_eq).
+    - apply NoDup_map_pair. apply NoDup_map_filter. exact Hnd.
+    - intros p [].
+    - left. exists a. split; [apply filter_In; split; assumption|reflexivity]. }
+  apply in_map_iff in Hin. destruct Hin as [p [E Hp]].
+  destruct (map_opt_all _ _ _ _ H Hp) as [r [Hr Hrin]]. exists r. split; [exact Hrin|].
+  rewrite E in Hr. apply (write_arg_id _ _ _ _ _ Hr).
+Qed.
+
+Lemma write_subcommands_lists cx c rows sc :
+  NoDup (map sc_str (hc_subs c)) -> write_subcommands dw cx c = Some rows ->
+  In sc (hc_subs c) -> hc_hide sc = false -> exists r, In r rows /\ r_id r = hc_name sc.
+Proof.
+  intros Hnd H Hsc Hh. unfold write_subcommands in H.
+  set (vis := filter should_show_subcommand (hc_subs c)) in *.
+  set (L := fold_left (fun acc sc => N.max acc (dw (sc_str sc))) vis 2) in *.
+  assert (Hin : In sc (map snd (fold_left (fun m sc => bt_insert key_cmp (hc_display_order sc, sc_str sc) sc m) vis []))).
+  { apply (fold_insert_lists key_cmp (fun sc => (hc_display_order sc, sc_str sc)) (fun sc => sc) key_cmp_eq).
+    - apply NoDup_map_pair. apply NoDup_map_filter. exact Hnd.
+    - intros p [].
+    - left. exists sc. split; [|reflexivity]. apply filter_In. split; [exact Hsc|].
+      unfold should_show_subcommand. rewrite Hh. reflexivity. }
+  apply in_map_iff in Hin. destruct Hin as [p [E Hp]].
+  destruct (map_opt_all _ _ _ _ H Hp) as [r [Hr Hrin]]. exists r. split; [exact Hrin|].
+  cbn beta in Hr. rewrite E in Hr. destruct (subcmd dw (sc_str sc) _ L); [|discriminate]. inversion Hr. reflexivity.
+Qed.
+
+(** the section an argument belongs to *)
+Definition arg_section_title (a : harg) : bytes :=
+  match ha_heading a with
+  | Some h => h
+  | None => if ha_is_positional a then s_arguments else s_options
+  end.
+
+Lemma dedup_in x l : forall seen, In x l -> In x (dedup l seen) \/ existsb (beq x) seen = true.
+Proof.
+  induction l as [|y t IH]; intros seen H; [destruct H|]. cbn [dedup].
+  destruct H as [H|H].
+  - subst y. destruct (existsb (beq x) seen) eqn:E; [right; reflexivity|left; left; reflexivity].
+  - destruct (existsb (beq y) seen) eqn:E.
+    + apply IH. exact H.
+    + destruct (IH (y :: seen) H) as [H1|H1]; [left; right; exact H1|].
+      cbn [existsb] in H1. apply orb_true_iff in H1. destruct H1 as [H1|H1]; [|right; exact H1].
+      apply beq_eq in H1. subst y. left. left. reflexivity.
+Qed.
+
+Lemma filter_nonnil {A} (p : A -> bool) l x : In x l -> p x = true -> is_nil (filter p l) = false.
+Proof.
+  intros H Hp. assert (Hin : In x (filter p l)) by (apply filter_In; split; assumption).
+  destruct (filter p l); [destruct Hin|reflexivity].
+Qed.
+
+Lemma heading_sections_lists cx c hs secs a h :
+  NoDup (map ha_id (hc_args c)) -> heading_sections dw cx c hs = Some secs ->
+  In h hs -> In a (hc_args c) -> ha_heading a = Some h -> should_show_arg (cx_use_long cx) a = true ->
+  exists sec r, In sec secs /\ s_title sec = h /\ In r (s_rows sec) /\ r_id r = ha_id a.
+Proof.
+  intros Hnd. revert secs. induction hs as [|h' t IH]; intros secs H Hh Ha Hhd Hs; [destruct Hh|].
+  cbn [heading_sections] in H.
+  set (args := filter (should_show_arg (cx_use_long cx)) (filter (heading_is h') (hc_args c))) in *.
+  destruct (if is_nil args then Some [] else
+            match write_args dw cx args option_sort_key with Some rows => Some [mkSec h' rows] | None => None end)
+    as [this|] eqn:Ethis; [|discriminate].
+  destruct (heading_sections dw cx c t) as [rest|] eqn:Erest; [|discriminate].
+  inversion H; subst secs. clear H.
+  destruct (beq h' h) eqn:Eh.
+  - apply beq_eq in Eh. subst h'.
+    assert (Hin : In a args).
+    { unfold args. apply filter_In. split; [|exact Hs]. apply filter_In. split; [exact Ha|].
+      unfold heading_is, opt_is. rewrite Hhd. apply beq_refl. }
+    assert (Hnil : is_nil args = false) by (destruct args; [destruct Hin|reflexivity]).
+    rewrite Hnil in Ethis. destruct (write_args dw cx args option_sort_key) as [rows|] eqn:Erows; [|discriminate].
+    inversion Ethis; subst this.
+    destruct (write_args_lists cx args option_sort_key rows a) as [r [Hr Hid]]; auto.
+    { unfold args. apply NoDup_map_filter. apply NoDup_map_filter. exact Hnd. }
+    exists (mkSec h rows), r. split; [left; reflexivity|]. auto.
+  - destruct Hh as [Hh|Hh]; [subst h'; rewrite beq_refl in Eh; discriminate|].
+    destruct (IH rest eq_refl Hh Ha Hhd Hs) as [sec [r [H1 H2]]].
+    exists sec, r. split; [apply in_or_app; right; exact H1|exact H2].
+Qed.
+
+Lemma lists_visible_arg cx c secs a :
+  NoDup (map ha_id (hc_args c)) -> write_all_args dw cx c = Some secs ->
+  In a (hc_args c) -> should_show_arg (cx_use_long cx) a = true ->
+  exists sec r, In sec secs /\ s_title sec = arg_section_title a /\ In r (s_rows sec) /\ r_id r = ha_id a.
+Proof.
+  intros Hnd H Ha Hs. unfold write_all_args in H.
+  set (show := should_show_arg (cx_use_long cx)) in *.
+  set (pos := filter show (filter (fun a => negb (is_some (ha_heading a))) (filter ha_is_positional (hc_args c)))) in *.
+  set (non_pos := filter show (filter (fun a => negb (is_some (ha_heading a))) (filter (fun a => negb (ha_is_positional a)) (hc_args c)))) in *.
+  destruct (if has_visible_subcommands c then _ else _) as [s1|]; [|discriminate].
+  destruct (if is_nil pos then _ else _) as [s2|] eqn:E2; [|discriminate].
+  destruct (if is_nil non_pos then _ else _) as [s3|] eqn:E3; [|discriminate].
+  destruct (heading_sections dw cx c (custom_headings c)) as [s4|] eqn:E4; [|discriminate].
+  inversion H; subst secs. clear H. unfold arg_section_title.
+  destruct (ha_heading a) as [h|] eqn:Hh.
+  - destruct (heading_sections_lists cx c (custom_headings c) s4 a h Hnd E4) as [sec [r [H1 H2]]]; auto.
+    { unfold custom_headings. destruct (dedup_in h (filter_map ha_heading (hc_args c)) []) as [H|H]; [|exact H|discriminate].
+      clear - Ha Hh. induction (hc_args c) as [|x t IH]; [destruct Ha|]. cbn [filter_map].
+      destruct Ha as [Ha|Ha]; [subst x; rewrite Hh; left; reflexivity|].
+      destruct (ha_heading x); [right|]; apply IH; exact Ha. }
+    exists sec, r. split; [|exact H2]. repeat (apply in_or_app; right). exact H1.
+  - destruct (ha_is_positional a) eqn:P.
+    + assert (Hin : In a pos).
+      { unfold pos. repeat (apply filter_In; split); auto. rewrite Hh. reflexivity. }
+      assert (Hnil : is_nil pos = false) by (destruct pos; [destruct Hin|reflexivity]).
+      rewrite Hnil in E2. destruct (write_args dw cx pos positional_sort_key) as [rows|] eqn:Erows; [|discriminate].
+      inversion E2; subst s2.
+      destruct (write_args_lists cx pos positional_sort_key rows a) as [r [Hr Hid]]; auto.
+      { unfold pos. repeat apply NoDup_map_filter. exact Hnd. }
+      exists (mkSec s_arguments rows), r. split; [apply in_or_app; right; apply in_or_app; left; left; reflexivity|]. auto.
+    + assert (Hin : In a non_pos).
+      { unfold non_pos. repeat (apply filter_In; split); auto; [rewrite P|rewrite Hh]; reflexivity. }
+      assert (Hnil : is_nil non_pos = false) by (destruct non_pos; [destruct Hin|reflexivity]).
+      rewrite Hnil in E3. destruct (write_args dw cx non_pos option_sort_key) as [rows|] eqn:Erows; [|discriminate].
+      inversion E3; subst s3.
+      destruct (write_args_lists cx non_pos option_sort_key rows a) as [r [Hr Hid]]; auto.
+      { unfold non_pos. repeat apply NoDup_map_filter. exact Hnd. }
+      exists (mkSec s_options rows), r.
+      split; [apply in_or_app; right; apply in_or_app; right; apply in_or_app; left; left; reflexivity|]. auto.
+Qed.
+
+Lemma lists_visible_sub cx c secs sc :
+  NoDup (map sc_str (hc_subs c)) -> write_all_args dw cx c = Some secs ->
+  In sc (hc_subs c) -> hc_hide sc = false -> hc_name sc <> s_help ->
+  exists sec r, In sec secs /\ s_title sec = s_commands /\ In r (s_rows sec) /\ r_id r = hc_name sc.
+Proof.
+  intros Hnd H Hsc Hh Hn. unfold write_all_args in H.
+  assert (Hv : has_visible_subcommands c = true).
+  { unfold has_visible_subcommands. apply existsb_exists. exists sc. split; [exact Hsc|].
+    rewrite Hh. destruct (beq (hc_name sc) s_help) eqn:E; [apply beq_eq in E; contradiction|reflexivity]. }
+  rewrite Hv in H.
+  destruct (write_subcommands dw cx c) as [rows|] eqn:Erows; [|discriminate].
+  destruct (if is_nil _ then _ else _) as [s2|]; [|discriminate].
+  destruct (if is_nil _ then _ else _) as [s3|]; [|discriminate].
+  destruct (heading_sections dw cx c (custom_headings c)) as [s4|]; [|discriminate].
+  inversion H; subst secs.
+  destruct (write_subcommands_lists cx c rows sc Hnd Erows Hsc Hh) as [r [Hr Hid]].
+  exists (mkSec s_commands rows), r. split; [left; reflexivity|]. auto.
+Qed.
+
+End P4.
